@@ -9,7 +9,7 @@ use crate::refpos::RefLines;
 
 pub struct C10;
 
-pub const SYMS: &[&str] = &["a", " ", "\n", "\r", "é", "€", "😀", "\u{c}", "\u{2028}"];
+pub const SYMS: &[&str] = &["a", " ", "\n", "\r", "é", "€", "😀", "\u{c}", "\u{2028}", "\u{feff}"];
 
 /// Line patterns of the long texts (the line table is a rope: texts longer than one of its chunks).
 pub const LONG_LINES: &[&str] = &["aé😀 €\n", "ab\r\n", "😀😀😀😀\r", "aaaaaaaaaaaaaaaaaaaaaaaaaaaaaaaaaaaaaaaaaaaaaaaaaaaaaaaaaaaaaaaaaaaaaaaaaaaaaaaaaaaaaaaaaaaaaaaaaaa€\n", "a€", "abcdefgh\n"];
@@ -191,6 +191,7 @@ fn esc(text: &str) -> String {
             '\r' => "\\r".to_string(),
             '\u{c}' => "\\f".to_string(),
             '\u{2028}' => "\\u2028".to_string(),
+            '\u{feff}' => "\\ufeff".to_string(),
             c => c.to_string(),
         })
         .collect()
@@ -210,7 +211,7 @@ impl Engine for C10 {
 
     fn rule(&self, tier: Tier) -> String {
         format!(
-            "every string of length <= {} over {{a, space, LF, CR, é (2 bytes), € (3 bytes), 😀 (4 bytes, 2 UTF-16 units), FF, U+2028}} x every character-boundary offset (except inside a CRLF pair) \
+            "every string of length <= {} over {{a, space, LF, CR, é (2 bytes), € (3 bytes), 😀 (4 bytes, 2 UTF-16 units), FF, U+2028, U+FEFF}} x every character-boundary offset (except inside a CRLF pair) \
              x every (line, column) with line <= last line and column <= line length + 1 (except columns inside a surrogate pair). non-trivial = the string contains a line terminator or a non-ASCII character; strings distinct by construction. \
              Long texts (the line table is a rope of chunks of about 1 KB): {} leads x {} x {} line patterns (first half, second half; LF / CRLF / CR / no terminator, 1- to 4-byte characters, a 100-byte line) x {} total lengths around 1, 2 and 4 KB: every boundary offset both ways, one column past every line end, the ranges from the text start, the line start and the previous boundary.",
             tier.pick(5, 7),
